@@ -57,7 +57,7 @@ MkRowG(fam, prog, objs, g0) ==
         runs |-> Runs(prog, cc, oc, objs, 1, g0, g0, g0), done |-> TRUE]
 MkRow(fam, prog, objs) == MkRowG(fam, prog, objs, <<>>)
 
-NK == 37
+NK == Flow!NKinds
 Twice == <<<<>>, <<>>>>
 
 Init ==
